@@ -39,7 +39,12 @@ template <typename Container, fcppt::optional::object_concept Optional>
       std::forward<Optional>(_source),
       [] { return Container{}; },
       [](auto &&_inner)
-      { return fcppt::container::make<Container>(fcppt::move_if_rvalue<Optional>(_inner)); });
+      {
+        // container::make moves from its arguments, so hand it a value of our own
+        // (a copy if _source is an lvalue).
+        return fcppt::container::make<Container>(
+            fcppt::optional::value_type<Optional>{fcppt::move_if_rvalue<Optional>(_inner)});
+      });
 }
 }
 
